@@ -38,6 +38,8 @@ func c05cfg(c *sym.Config) {
 	c.MaxConcretize = 6
 }
 
+var mustC08 = []string{"segmented-decode-ok", "segmented-rows", "segmented-values", "segmented-consumed-all", "segmented-truncated-rejected"}
+
 var props = map[string]*propDef{
 	"C14": {
 		ID: "C14", Level: "model_checking", Rule: ruleDefault,
@@ -190,6 +192,19 @@ var props = map[string]*propDef{
 			{Name: "compress.VerifC05Header", Cfg: c05cfg, Quick: map[string]int{"tail": 2}, Thorough: map[string]int{"tail": 6}},
 			{Name: "compress.VerifC05Corrupt", Quick: map[string]int{"maxlen": 2}, Thorough: map[string]int{"maxlen": 6}},
 			{Name: "compress.VerifC05Truncated", Quick: map[string]int{"maxlen": 2}, Thorough: map[string]int{"maxlen": 5}},
+		},
+	},
+	"C08": {
+		ID: "C08", Level: "model_checking", Rule: ruleDefault,
+		Assumptions: append([]string{
+			"the transport is a harness io.Reader that returns the stream in pieces: one byte per Read, two pieces at every offset, and every one of the 2^(n-1) segmentations of the first 8 bytes",
+			"the single-segment outcome the segmented one is compared with is C01's oracle (the appended values) and C07's (a cut stream fails)",
+		}, baseAssumptions...),
+		Harnesses: []harnessDef{
+			{Name: "proto.VerifC08GenLeaves", Must: mustC08, Quick: map[string]int{"maxrows": 1, "maskbytes": 5, "maxcutback": 0}, Thorough: map[string]int{"maxrows": 2}},
+			{Name: "proto.VerifC08PlainLeaves", Must: mustC08, Quick: map[string]int{"maskbytes": 5, "maxcutback": 0, "maxrows": 1, "minstr": 1, "maxstr": 1, "minprec": 3, "maxprec": 3, "minscale": 3, "maxscale": 3}, Thorough: map[string]int{"maxrows": 2, "maxstr": 1}},
+			{Name: "proto.VerifC08Composites", Must: mustC08, Quick: map[string]int{"maskbytes": 5, "maxcutback": 0, "maxrows": 1, "minstr": 1, "maxstr": 1, "mininner": 1, "maxinner": 1}, Thorough: map[string]int{"maxrows": 2, "maxstr": 1, "maxinner": 1}},
+			{Name: "compress.VerifC08Frames", Quick: map[string]int{"maxlen": 1}, Thorough: map[string]int{"maxlen": 3}},
 		},
 	},
 }
